@@ -18,6 +18,7 @@ func init() {
 			"R14.3 bearer precedence: the Authorization header (prefix constant \"Bearer \") is read first, the access_token query parameter only when no token was found, the form body only when still none and only for the two form media types — the form read can never pre-empt the query read; R14.4 the context-aware and plain variants agree on the sequence of credential reads and constants; " +
 			"R14.5 the client writers use the same header constant as the server reads, base64.StdEncoding for user:password (what net/http's BasicAuth decodes), the \"Bearer \" prefix, and the given key name/location; R14.6 the transport-wide default credential is wrapped in only when the operation has no AuthInfo, and applied only when no Authorization header is set. " +
 			"R14.5 also: the snapshot of client-set query parameters in buildHTTP is taken after the auth writer ran. " +
+			"R14.2 also: the HttpAuthenticator / ScopedAuthenticator adapters call the scheme for every parameter they recognise as a request. " +
 			"NOT decided: string round-trip equality of the encodings (net/http, encoding/base64).",
 		Run: runC14,
 	})
